@@ -2,8 +2,8 @@ SPECIFICATION Spec
 CONSTANTS
  MaxDepth = 2
  MaxItems = 2
- MaxLen = 12
- MaxVar = 1
+ MaxLen = 13
+ MaxVar = 2
 VIEW View
 ACTION_CONSTRAINT Emit
 INVARIANTS TypeOK JsonSubset
